@@ -186,6 +186,11 @@ def reuse_programs(draw):
         body = [{'op': 'sleep', 'd': draw(st.sampled_from([0.25, 0.5, 1, 2]))} for _ in range(draw(st.integers(0, 2)))]
         if draw(st.booleans()):
             body.append({'op': 'eternity'})
+        if draw(st.integers(0, 2)) == 0:
+            # a block of the same activity on the same object inside this one, which ends by itself first: the outer
+            # block stays guarded
+            body.insert(0, {'op': 'until', 'notif': ['named', 0], 'children': [],
+                            'body': [{'op': 'sleep', 'd': draw(st.sampled_from([0, 0.25]))}]})
         steps.append({'op': 'until', 'notif': ['named', 0], 'children': [], 'body': body})
         steps.append({'op': 'sleep', 'd': draw(st.sampled_from([0.25, 0.5, 1, 1.5]))})
     hd = {'name': 'hd', 'steps': [{'op': 'sleep', 'd': 0.3125}]}
